@@ -8,6 +8,7 @@ import (
 	"net/http"
 	"net/http/httptest"
 	"os"
+	"sort"
 	"strings"
 	"sync"
 
@@ -123,6 +124,10 @@ func (r *ref) eval(n *Node, cur int) {
 // ---- execution ---------------------------------------------------------------
 
 type obsScope struct {
+	EnterXid   string // xid bound to the context when the scope was entered
+	EnterEv    int    // coordinator events before / after the scope's WithGlobalTx call
+	ExitEv     int
+	Mode       int
 	Ran        bool
 	Xid        string
 	Err        string
@@ -137,6 +142,12 @@ func (rn *run) exec(ctx context.Context, n *Node) error {
 	idx := len(rn.scopes)
 	rn.scopes = append(rn.scopes, obsScope{})
 	gc := &tm.GtxConfig{Name: fmt.Sprintf("scope-%d", idx), Propagation: tm.Propagation(n.Mode)}
+	if tm.IsSeataContext(ctx) {
+		rn.scopes[idx].EnterXid = tm.GetXID(ctx)
+	}
+	rn.scopes[idx].Mode = n.Mode
+	rn.scopes[idx].EnterEv = len(getEnv().TC.Events())
+	defer func() { rn.scopes[idx].ExitEv = len(getEnv().TC.Events()) }()
 	err := tm.WithGlobalTx(ctx, gc, func(c context.Context) error {
 		rn.scopes[idx].Ran = true
 		xid := tm.GetXID(c)
@@ -146,12 +157,17 @@ func (rn *run) exec(ctx context.Context, n *Node) error {
 		if p := tm.GetTxRole(c); p != nil {
 			role = *p
 		}
-		for _, ch := range n.Children {
+		for ci, ch := range n.Children {
 			cctx := c
 			if ch.Fresh {
-				// a remote call: a fresh context that only carries the xid
+				// a remote call: a fresh context that only carries the xid. Every second fresh edge derives it from the caller's
+				// context (the way code that forwards deadlines and values builds the callee context) instead of from Background:
+				// a new transaction context layered over the caller's must be just as independent
 				cctx = context.Background()
-				if xid != "" {
+				if (ci+idx)%2 == 1 {
+					cctx = context.WithValue(c, ctxKey("forwarded"), "v")
+				}
+				if xid != "" || (ci+idx)%2 == 1 {
 					cctx = tm.InitSeataContext(cctx)
 					tm.SetXID(cctx, xid)
 				}
@@ -261,6 +277,8 @@ func trees(maxNodes int, yield func(root *Node)) {
 	}
 }
 
+type ctxKey string
+
 func hasShared(n *Node, isRoot bool) bool {
 	if !isRoot && !n.Fresh {
 		return true
@@ -366,6 +384,33 @@ func evalTree(r *rep.Run, root *Node, idx int) {
 	if escaped != "" {
 		viol("panic", "a panic escaped: "+escaped)
 		return
+	}
+	// a scope that joins the transaction bound to its context (Required / Supports / Mandatory entered with an xid) never
+	// decides it: between its entry and its exit no commit or rollback for that xid goes out. This holds on shared and on
+	// fresh contexts alike (the shared-context finding is about what the OUTER scope does afterwards).
+	evs := e.TC.Events()
+	for i, sc := range rn.scopes {
+		m := tm.Propagation(sc.Mode)
+		if sc.EnterXid == "" || !(m == tm.Required || m == tm.Supports || m == tm.Mandatory) || sc.ExitEv > len(evs) {
+			continue
+		}
+		for _, ev := range evs[sc.EnterEv:sc.ExitEv] {
+			if ev.Dir != "c2s" {
+				continue
+			}
+			x := ""
+			switch b := ev.Msg.Body.(type) {
+			case message.GlobalCommitRequest:
+				x = b.Xid
+			case message.GlobalRollbackRequest:
+				x = b.Xid
+			}
+			if x != "" && x == sc.EnterXid {
+				r.Violate(fmt.Sprintf("joined-scope-decides/%s", modeNames[m]), "a scope that joins an existing transaction never commits or rolls it back", map[string]interface{}{"idx": idx, "tree": root},
+					fmt.Sprintf("scope %d joined %s and a %T for it was sent while the scope ran | tree=%s", i, sc.EnterXid, ev.Msg.Body, root.String()))
+				return
+			}
+		}
 	}
 	if fmt.Sprint(got) != fmt.Sprint(rf.events) {
 		viol("requests", "coordinator request log differs from the reference")
@@ -547,6 +592,41 @@ func integrations(r *rep.Run) {
 		r.Eval(true)
 		if sent["SEATA_XID"] != xid || sent["TX_XID"] != xid {
 			r.Violate("integration/dubbo/consumer", "the consumer filter attaches the xid", xid[:min(len(xid), 40)], fmt.Sprint(len(sent)))
+		}
+		// a relaying service: the invocation it passes on still carries the attachment it received (an older xid) while its
+		// context is bound to another transaction (a RequiresNew scope): the wire and the handed-on context carry the bound xid
+		for _, stale := range []map[string]interface{}{
+			{"SEATA_XID": "10.9.9.9:8091:555", "TX_XID": "10.9.9.9:8091:555"},
+			{"TX_XID": "10.9.9.9:8091:556"},
+			{"tx_xid": "10.9.9.9:8091:557"},
+		} {
+			if xid == "" {
+				continue
+			}
+			att := map[string]interface{}{}
+			for k, v := range stale {
+				att[k] = v
+			}
+			rinv := invocation.NewRPCInvocation("m", nil, att)
+			ri := &fakeInvoker{}
+			rctx := tm.InitSeataContext(context.Background())
+			tm.SetXID(rctx, xid)
+			f.Invoke(rctx, ri, rinv)
+			r.Eval(true)
+			var keys []string
+			for k := range stale {
+				keys = append(keys, k)
+			}
+			sort.Strings(keys)
+			tag := "relay/" + strings.Join(keys, "+")
+			for _, k := range []string{"SEATA_XID", "TX_XID"} {
+				if v, _ := rinv.GetAttachment(k); v != xid {
+					r.Violate("integration/dubbo/"+tag+"/wire", "an xid carried by the integration arrives unchanged", xid[:min(len(xid), 40)], fmt.Sprintf("attachment %s = %q on the wire, the caller's context is bound to another xid", k, v))
+				}
+			}
+			if ri.seen != nil && tm.IsSeataContext(ri.seen) && tm.GetXID(ri.seen) != xid {
+				r.Violate("integration/dubbo/"+tag+"/context", "an xid carried by the integration arrives unchanged", xid[:min(len(xid), 40)], fmt.Sprintf("the context handed on is bound to %q", tm.GetXID(ri.seen)))
+			}
 		}
 		for _, key := range []string{"SEATA_XID", "TX_XID", "seata_xid", "tx_xid"} {
 			pinv := invocation.NewRPCInvocation("m", nil, map[string]interface{}{key: xid})
